@@ -30,7 +30,7 @@ def render(root, sc, trace, rng):
         f.write("[build]\npath = /usr/local/bin:/usr/bin:/bin\n[cache]\ndir =\n")
     builds = {}
     for t in range(1, n + 1):
-        deps = sc["deps"][t - 1]
+        deps = (sc.get("declared") or sc["deps"])[t - 1]
         srcs = ['"//%s:t%d"' % (pkg[d], d) for d in deps]
         if fault[t - 1] == "undefdep":
             srcs.append('"//%s:undefined%d"' % (pkg[t], t))       # the package exists, the target does not
@@ -41,9 +41,15 @@ def render(root, sc, trace, rng):
         cmd = ("printf '%%s\\n' '{\"ev\":\"Start\",\"t\":\"%d\"}' >> %s; %s" % (t, trace, slp)
                + ("printf '%%s\\n' '{\"ev\":\"End\",\"t\":\"%d\",\"rc\":1}' >> %s; exit 1" % (t, trace) if fail else
                   "cat $SRCS /dev/null > $OUT; printf '%%s\\n' '{\"ev\":\"End\",\"t\":\"%d\",\"rc\":0}' >> %s" % (t, trace)))
+        more = ""
+        prov = (sc.get("provides") or {}).get(str(t))
+        if prov:
+            more += '    provides = {"v": "//%s:t%d"},\n' % (pkg[prov], prov)
+        if t in (sc.get("requirers") or []):
+            more += '    requires = ["v"],\n'
         builds.setdefault(pkg[t], []).append(
-            'genrule(\n    name = "t%d",\n    srcs = [%s],\n    outs = ["t%d.out"],\n    cmd = %s,\n    visibility = ["PUBLIC"],\n)\n'
-            % (t, ", ".join(srcs), t, json.dumps(cmd)))
+            'genrule(\n    name = "t%d",\n    srcs = [%s],\n    outs = ["t%d.out"],\n    cmd = %s,\n    visibility = ["PUBLIC"],\n%s)\n'
+            % (t, ", ".join(srcs), t, json.dumps(cmd), more))
         if fault[t - 1] == "parseerr":
             builds[pkg[t]].append('this is ( not a valid BUILD file\n')
     for p, rules in builds.items():
@@ -186,6 +192,18 @@ def extra_scenarios(ctx, count):
             if t > hub and rng.random() < 0.7:
                 d.add(hub)          # wide fan-in on one dependency
             deps.append(sorted(d))
+        # require / provide: a provider p offers target q for "v"; consumers that require "v" resolve p to q
+        declared = [list(d) for d in deps]
+        provides, requirers = {}, []
+        if rng.random() < 0.5 and n >= 4:
+            p_ = rng.randint(3, n)
+            q_ = rng.randint(1, p_ - 1)
+            if q_ not in deps[p_ - 1]:
+                provides[str(p_)] = q_
+                for c_ in range(p_ + 1, n + 1):
+                    if p_ in deps[c_ - 1] and rng.random() < 0.7:
+                        requirers.append(c_)
+                        deps[c_ - 1] = sorted((set(deps[c_ - 1]) - {p_}) | {q_})
         fail = sorted(rng.sample(range(1, n + 1), rng.choice([0, 0, 1, 2])))
         req = sorted(rng.sample(range(1, n + 1), rng.choice([1, 2, 3])))
         bad = set(fail)
@@ -207,7 +225,7 @@ def extra_scenarios(ctx, count):
             clo(t)
         out.append(dict(n=n, deps=deps, req=req, fail=fail, keepGoing=rng.random() < 0.5,
                         expectOK=not (need & bad), buildable=sorted(set(range(1, n + 1)) - bad), threads=rng.choice([1, 4, 16]),
-                        origin="random-large-dag"))
+                        origin="random-large-dag", declared=declared, provides=provides, requirers=requirers))
     return out
 
 
